@@ -109,6 +109,9 @@ def cli_create(data, smap=None, project=None, via="stdin", samples_via="arg", ex
 HEADER_RE = re.compile(rb"^#SHAPE=<([0-9]+(?:/[0-9]+)*)>$")
 
 
+TOKEN_RE = re.compile(r"^-?(?:[0-9]+(?:\.[0-9]+)?|inf|NaN)$")
+
+
 def parse_text_spectrum(out):
     """-> (shape, [value tokens as str]) or None if `out` is not a two-line text spectrum."""
     if not out.endswith(b"\n"):
@@ -121,6 +124,8 @@ def parse_text_spectrum(out):
         return None
     shape = [int(x) for x in m.group(1).split(b"/")]
     toks = lines[1].decode("ascii", "replace").split(" ")
+    if not all(TOKEN_RE.match(t) for t in toks):
+        return None          # something that is not a fixed-point number / NaN / inf: not a spectrum the tool itself writes
     return shape, toks
 
 
